@@ -86,20 +86,20 @@ IF_A = [A_VALUE, A_RA, A_GROW, A_THROW, A_INTERP, A_ERR, "the condition is not o
 IF_SHAPES = "(if c a), (if c a nil), (if c a b); "
 
 
-def bound_ctx(ctx):
-    return ("each sub-form emits 0..2 instructions and yields a constant (nil, false, true, 0, 7) or a local register; 2 instructions before the form; "
+def bound_ctx(ctx, kmax=2):
+    return ("each sub-form emits 0..%d instructions" % kmax + " and yields a constant (nil, false, true, 0, 7) or a local register; 2 instructions before the form; "
             "context: " + ctx + "; registers < 32; instruction vectors preallocated with 32 entries (no growth); execution of the emitted code bounded "
             "by 12 steps (asserted sufficient)")
 
 
 units.append(unit(
     "comp.if.used", "h_if", "janetc_if", IF_CLAUSE % "", IF_SHAPES + bound_ctx("value used, no hint slot, non-constant condition"),
-    [IF_MUT[0], IF_MUT[1], IF_MUT[2]], IF_A, defines=["-DSP_IF_SHAPE=0", "-DSP_CTX=0", "-DSP_CONDCONST=0", "-DSP_HINT=0"]))
+    [IF_MUT[0], IF_MUT[1], IF_MUT[2]], IF_A, tier="thorough", timeout=900, defines=["-DSP_IF_SHAPE=0", "-DSP_CTX=0", "-DSP_CONDCONST=0", "-DSP_HINT=0"]))
 units.append(unit(
     "comp.if.used.hint", "h_if", "janetc_if", IF_CLAUSE % "", IF_SHAPES + bound_ctx("value used, delivered into a hint slot (any register, possibly the register of a sub-form's value), non-constant condition"),
     [IF_MUT[0], M("hint-ignored", "    target = (drop || tail)\n             ? janetc_cslot(janet_wrap_nil())\n             : janetc_gettarget(opts);",
                   "    opts.flags &= ~JANET_FOPTS_HINT;\n    target = (drop || tail)\n             ? janetc_cslot(janet_wrap_nil())\n             : janetc_gettarget(opts);", "usable hint")],
-    IF_A, tier="thorough", defines=["-DSP_IF_SHAPE=0", "-DSP_CTX=0", "-DSP_CONDCONST=0", "-DSP_HINT=1"]))
+    IF_A, tier="thorough", timeout=900, defines=["-DSP_IF_SHAPE=0", "-DSP_CTX=0", "-DSP_CONDCONST=0", "-DSP_HINT=1"]))
 units.append(unit(
     "comp.if.used.const", "h_if", "janetc_if", IF_CLAUSE % "", IF_SHAPES + bound_ctx("value used (with or without hint slot), constant condition (nil, false, true, 0, 7)"),
     [IF_MUT[3], M("constant-branch-value-not-delivered", "        right = janetc_value(bodyopts, truebody);\n        if (!drop && !tail) janetc_copy(c, target, right);",
@@ -123,7 +123,7 @@ units.append(unit(
      M("neq-constant-not-swapped", "        if (ifnjmp == JOP_JUMP_IF_NIL && janet_checktype(cond.constant, JANET_NIL)) swap_condition = 1;\n", "", "selected branch|other branch|result slot"),
      M("shortcut-ignores-function", "    if (tag != fun_tag) return 0;\n", "", "condition is compiled first|selected branch|other branch|result slot")],
     [A_VALUE, A_RA, A_GROW, A_THROW, A_INTERP, A_ERR],
-    defines=["-DSP_IF_SHAPE=1", "-DSP_KFIX=1"]))
+    tier="thorough", timeout=900, defines=["-DSP_IF_SHAPE=1", "-DSP_KFIX=1"]))
 
 # ------------------------------------------------------------------ do / upscope
 DO_CLAUSE = ("%s: the sub-forms are compiled and evaluated once each in order; every form but the last for effect only (value dropped and its register released, "
@@ -206,21 +206,21 @@ units.append(unit(
     "comp.set.field", "h_set", "janetc_varset",
     "set: (set (ds key) v) evaluates ds, then key, then v, once each, none dropped or in tail position, then puts v under key into ds (one PUT after all three evaluations) and yields v; "
     "an l-value tuple of another length is a compile error and emits nothing",
-    "(set (ds key) v) and (set (ds key extra) v); " + bound_ctx("value used (with or without hint), dropped or tail position"),
+    "(set (ds key) v) and (set (ds key extra) v); " + bound_ctx("value used (with or without hint), dropped or tail position", 1),
     [M("put-operands-swapped", "        janetc_emit_sss(opts.compiler, JOP_PUT, ds, key, rvalue, 0);", "        janetc_emit_sss(opts.compiler, JOP_PUT, ds, rvalue, key, 0);", "exactly one put"),
      M("key-before-ds", "        JanetSlot ds = janetc_value(subopts, tup[0]);\n        JanetSlot key = janetc_value(subopts, tup[1]);", "        JanetSlot key = janetc_value(subopts, tup[1]);\n        JanetSlot ds = janetc_value(subopts, tup[0]);", "in this order|then key"),
      M("value-may-be-tail", "        opts.flags &= ~(JANET_FOPTS_TAIL | JANET_FOPTS_DROP);", "        opts.flags &= ~JANET_FOPTS_DROP;", "none compiled as tail call|control continues")],
     [A_VALUE, A_RA, A_GROW, A_INTERP, A_ERR, "PUT a b c stores reg c under key reg b into reg a (reference interpreter)"],
-    compile_keep=SET_KEEP, replace=["janetc_lintf:sp_lintf_stub"], defines=["-DSP_SET_SHAPE=1", "-DSP_HINT=0"], functions=["janetc_varset", "janetc_emit_sss"]))
+    compile_keep=COMPILE_KEEP, replace=["janetc_resolve:sp_resolve_unreach_stub"], defines=["-DSP_SET_SHAPE=1", "-DSP_HINT=0", "-DSP_KMAX=1"], functions=["janetc_varset", "janetc_emit_sss"]))
 units[-1]["bound"] = units[-1]["bound"].replace("value used (with or without hint)", "value used (no hint slot: see comp.set.field.hint)")
 units.append(unit(
     "comp.set.field.hint", "h_set", "janetc_varset",
     "set: (set (ds key) v) whose own value is delivered into a variable (hint slot), e.g. (set x (set (ds key) v)): ds, key and v are evaluated in order and v is put under key into ds "
     "even when ds or key is the receiving variable itself; the form yields v",
-    "(set (ds key) v) compiled with a hint slot (any register below 24; a sub-form whose value lives in that register is that variable); " + bound_ctx("value used with hint"),
+    "(set (ds key) v) compiled with a hint slot (any register below 24; a sub-form whose value lives in that register is that variable); " + bound_ctx("value used with hint", 1),
     [M("put-operands-swapped", "        janetc_emit_sss(opts.compiler, JOP_PUT, ds, key, rvalue, 0);", "        janetc_emit_sss(opts.compiler, JOP_PUT, ds, rvalue, key, 0);", "exactly one put")],
     [A_VALUE, A_RA, A_GROW, A_INTERP, A_ERR, "PUT a b c stores reg c under key reg b into reg a (reference interpreter)"],
-    compile_keep=SET_KEEP, replace=["janetc_lintf:sp_lintf_stub"], defines=["-DSP_SET_SHAPE=1", "-DSP_CTX=0", "-DSP_HINT=1"], functions=["janetc_varset", "janetc_emit_sss"],
+    compile_keep=COMPILE_KEEP, replace=["janetc_resolve:sp_resolve_unreach_stub"], defines=["-DSP_SET_SHAPE=1", "-DSP_CTX=0", "-DSP_HINT=1", "-DSP_KMAX=1"], functions=["janetc_varset", "janetc_emit_sss"],
     extra={"finding": "FAILS on the pinned tree (genuine defect): janetc_varset keeps JANET_FOPTS_HINT for the value form, so v is written into the receiving variable before the PUT "
                       "reads ds / key. Reproducers: (defn f [] (var x @{}) (set x (set (x :k) 5)) x) (f) -> error 'expected array, table or buffer, got 5'; "
                       "(defn g [] (var x @{}) (def t x) (var k :a) (set k (set (x k) 5)) [k t]) (g) -> (5 @{5 5}) instead of (5 @{:a 5})"}))
@@ -241,7 +241,7 @@ units.append(unit(
     [M("splice-accepted-anywhere", "    if (!(opts.flags & JANET_FOPTS_ACCEPT_SPLICE)) {", "    if (0) {", "compile error and emits nothing"),
      M("splice-flag-lost", "    ret.flags |= JANET_SLOT_SPLICED;\n    return ret;", "    return ret;", "marked as spliced")],
     [A_VALUE, A_RA, A_GROW, A_INTERP, A_ERR], functions=["janetc_splice"]))
-for QT, QTXT in ((0, "~(a ,f2 (quasiquote (unquote a3)))"), (1, "~((foo a1) (unquote) ,f3)"), (2, "~(,f1 ,f2 a3)")):
+for QT, QTXT in ((0, "~(a ,f2 (quasiquote (unquote a3)))"), (1, "~((foo a1) ,f2 a3)"), (2, "~(,f1 ,f2 a3)"), (3, "~((unquote) a2 ,f3)")):
   units.append(unit(
     "comp.quasiquote.t%d" % QT, "h_quasiquote", "quasiquote",
     "quasiquote: a datum is itself; (unquote f) at level 0 evaluates f (for its value, splice accepted) and everything else is data: a tuple / bracketed tuple / array template is "
@@ -263,10 +263,11 @@ for QT, QTXT in ((0, "~(a ,f2 (quasiquote (unquote a3)))"), (1, "~((foo a1) (unq
              "janet_dictionary_view:sp_dictview_stub", "janet_dictionary_next:sp_dictnext_stub"],
     grow="sp_grow_qq_stub", override={"janetc_regalloc_1": "sp_ra_1_seq_stub"}, functions=["quasiquote", "qq_slots", "janetc_quasiquote", "janetc_gettarget"],
     defines=["-DSP_QQ_TEMPLATE=%d" % QT], extra={"unwindset": {"sp_run.0": 14, "quasiquote.0": 4, "quasiquote.1": 4}}))
-QQM = units[-3]["mutants"]
-units[-3]["mutants"] = [QQM[0], QQM[1], QQM[3], QQM[5]]
-units[-2]["mutants"] = [QQM[2], QQM[3], QQM[5]]
-units[-1]["mutants"] = [QQM[4], QQM[5], QQM[2]]
+QQM = units[-4]["mutants"]
+units[-4]["mutants"] = [QQM[0], QQM[1], QQM[3], QQM[5]]
+units[-3]["mutants"] = [QQM[2], QQM[3], QQM[5]]
+units[-2]["mutants"] = [QQM[4], QQM[5], QQM[2]]
+units[-1]["mutants"] = [QQM[5], M("unquote-arity-unchecked", "            if (len > 1 && janet_checktype(tup[0], JANET_SYMBOL)) {", "            if (len > 0 && janet_checktype(tup[0], JANET_SYMBOL)) {", "argument-less unquote|nested tuple is rebuilt|bounds|pointer")]
 
 # ------------------------------------------------------------------ fn: parameter list
 FN_TAILS = [(0, "none", "no tail"), (1, "rest", "& rest"), (2, "extra", "& alone (extra arguments ignored)"), (3, "keys", "&keys k"), (4, "named1", "&named n1"), (5, "named2", "&named n1 n2"), (None, "body", None)]
@@ -347,5 +348,14 @@ units.append(unit(
                       "emitted (value dropped and no else branch): labeljd == count, a 4-byte read-modify-write one element past the vector when count == capacity (1 or 2 instructions). "
                       "Reproducer: valgrind /repo/_build/janet -e '(fn [x] (if x 1) 2)' -> Invalid read of size 4 at janetc_if (specials.c:675), 0 bytes after the block allocated by janet_v_grow"}))
 
+
+# the two defects these units exposed are repaired (/repo 92200f8, 22a764c): the `finding` notes become revert mutants
+for _u in units:
+    if _u["id"] == "comp.set.field.hint":
+        _u.pop("finding", None)
+        _u["mutants"] = _u.get("mutants", []) + [{"name": "revert-22a764c-hint-honoured", "file": "specials.c", "find": "        opts.flags &= ~(JANET_FOPTS_TAIL | JANET_FOPTS_DROP | JANET_FOPTS_HINT);", "replace": "        opts.flags &= ~(JANET_FOPTS_TAIL | JANET_FOPTS_DROP);", "expect": "exactly one put|comp.set"}]
+    if _u["id"] == "comp.if.drop.fresh":
+        _u.pop("finding", None)
+        _u["mutants"] = _u.get("mutants", []) + [{"name": "revert-92200f8-patch-without-jump", "file": "specials.c", "find": "    if (jump_emitted) c->buffer[labeljd] |= (labeld - labeljd) << 8;", "replace": "    if (!tail) c->buffer[labeljd] |= (labeld - labeljd) << 8;", "expect": "pointer|bounds|dereference"}]
 json.dump({"units": units}, open(os.path.join(VERIF, "units", "C02_specials.json"), "w"), indent=1)
 print("wrote %d units" % len(units))
